@@ -7,6 +7,12 @@ package main
 // Properties/Shape.v pins them, so an edited comparison (>= for >, a changed
 // bound, a dropped conjunct) breaks an obligation even in a branch that the
 // generated histories reach rarely.
+//
+// Exception: the conditions that translator/purefn.go translates into Gallina
+// (Gen/PureFn.v, Gen/PureFnIP.v) appear as "<translated: gen_x (Gen/F.v)>":
+// what they mean is proved on every run (Properties/C03P.v, C06P.v), so a
+// harmless rewrite does not trip the pin; their presence, number, order and
+// function still do. If the translation fails, the source text is listed.
 
 import (
 	"bytes"
@@ -64,9 +70,18 @@ func init() {
 						}
 					}
 					if e != nil {
-						var b bytes.Buffer
-						printer.Fprint(&b, p.fset, e)
-						conds = append(conds, kind+" "+oneLine(b.String()))
+						// A condition that the generators PureFn / PureFnIP
+						// translated (this very AST node) is listed by the
+						// name of its translation: its meaning is proved
+						// (Properties/C03P.v, C06P.v), so its wording is not
+						// pinned. Position and function stay as they are.
+						if ph, ok := pfPlaceholder(p, e); ok {
+							conds = append(conds, kind+" "+ph)
+						} else {
+							var b bytes.Buffer
+							printer.Fprint(&b, p.fset, e)
+							conds = append(conds, kind+" "+oneLine(b.String()))
+						}
 					}
 					return true
 				})
